@@ -224,7 +224,10 @@ def _lit(d, desc, t, depth, ctx, nullable, kinds, risky, in_obj):
         return gql_string(d.choice(["id-1", "42", "abc"]))
     if name == "String":
         kinds.add("string")
-        return gql_string(gen_string_value(d, prefix=ctx + "str"))
+        value = gen_string_value(d, prefix=ctx + "str")
+        if d.bool(0.12) and d.enabled(f"{ctx}str.block_string"):
+            return '"""' + value.replace('"""', '\\"""') + '"""'
+        return gql_string(value)
     if name in desc.enums:
         vals = list(desc.enums[name])
         kw = [v for v in vals if keyword.iskeyword(v)]
